@@ -205,11 +205,12 @@ class BaseCommand(FlockMixin, ABC):
 
         argv = sys.argv[:]
         argv[0] = Path(argv[0]).name
-        env = {
+        # The variables of this run take precedence over inherited ones (e.g. if started from a hook of another run)
+        env = os.environ | {
             "GALLIA_ARTIFACTS_DIR": str(self.artifacts_dir),
             "GALLIA_HOOK": variant.value,
             "GALLIA_INVOCATION": " ".join(argv),
-        } | os.environ
+        }
 
         if variant == HookVariant.POST:
             env["GALLIA_META"] = self.run_meta.json()
